@@ -143,7 +143,25 @@ def check_runner(lr, paths=None):
     return fails
 
 
-def run_sql(sql, dialect="ansi", metadata=None, provider=None):
+def export(lr, paths=None):
+    """the implementation's combined graph and its reported paths in the form driver cmd `chainpaths` reads: nodes in `g.nodes`
+    order (JSON as lean/SqlLineage/IO/Graph.lean), edges by node index in `g.edges` order, paths as node-index lists (default
+    arguments, and with exclude_subquery_columns=True)"""
+    import implgraph as IG
+    g = lr._sql_holder.graph
+    nodes = list(g.nodes)
+    index = {}
+    for i, n in enumerate(nodes):
+        index.setdefault(n, i)
+    edges = [[index[u], index[v], str(attr.get("type"))] for u, v, attr in g.edges(data=True)]
+    paths = lr.get_column_lineage() if paths is None else paths
+    p_sub = lr.get_column_lineage(exclude_subquery_columns=True)
+    return {"nodes": [IG.node_json(n) for n in nodes], "edges": edges,
+            "paths": sorted([index[c] for c in p] for p in paths),
+            "paths_excl_sub": sorted([index[c] for c in p] for p in p_sub)}
+
+
+def run_sql(sql, dialect="ansi", metadata=None, provider=None, want_export=False):
     """run the real analyser and the monitor; returns {"rejected":..} | {"error":..} | {"fails": [...], "paths": [...], "n_nodes": int}"""
     import warnings
     import sqlimpl
@@ -168,6 +186,8 @@ def run_sql(sql, dialect="ansi", metadata=None, provider=None):
                    "tables": {"source": sorted(sqlimpl.norm_name(str(t)) for t in lr.source_tables),
                               "target": sorted(sqlimpl.norm_name(str(t)) for t in lr.target_tables),
                               "intermediate": sorted(sqlimpl.norm_name(str(t)) for t in lr.intermediate_tables)}}
+            if want_export:
+                out["export"] = export(lr, paths)
             return out
     except X.InvalidSyntaxException as e:
         return {"rejected": str(e)[-200:]}
@@ -182,7 +202,7 @@ def run_case(case):
     sql = case["sql"]
     if isinstance(sql, list):
         sql = ";\n".join(sql)
-    r = run_sql(sql, case.get("dialect", "ansi"), case.get("metadata"))
+    r = run_sql(sql, case.get("dialect", "ansi"), case.get("metadata"), want_export=case.get("export", False))
     for f in r.get("fails", []):
         f["detail"] = {k: (v if isinstance(v, (list, int, bool, str)) else str(v)) for k, v in f["detail"].items()}
     return r
